@@ -47,6 +47,46 @@ def safe_isinstance(v, T):
         return False
 
 
+def desc_holds(ew, d, v):
+    """does value `v` belong to the declared type `d`, read off the declaration itself: an instance of the declared
+    bound that satisfies the declared condition (independent of the type object the library built for it)"""
+    k = d[0]
+    if k == "lit":
+        return desc_holds(ew, d[2], v) and any(v is corr_e.POOL[i] or v == corr_e.POOL[i] for i in d[1])
+    if k == "prod":
+        return (desc_holds(ew, d[2], v) and isinstance(v, tuple) and len(v) == len(d[1])
+                and all(desc_holds(ew, t, x) for t, x in zip(d[1], v)))
+    if k == "fdep":
+        if not desc_holds(ew, d[3], v):
+            return False
+        fn = d[1]
+        params = tuple(ew.param_obj(fn, p) for p in d[2])
+        if fn == corr_e.FN_STARTS:
+            return v.startswith(params[0])
+        if fn == corr_e.FN_ENDS:
+            return v.endswith(params[0])
+        if fn == corr_e.FN_HASKEY:
+            return all(q in v for q in params)
+        if fn == corr_e.FN_REGEXP:
+            import re
+
+            return bool(re.compile(params[0]).search(v))
+        n = len(ew.pred_log)
+        try:
+            return bool(ew.dep_check(fn, v, params))
+        finally:
+            del ew.pred_log[n:]
+    if k == "union":
+        return any(desc_holds(ew, x, v) for x in d[1])
+    if k == "inter":
+        return all(desc_holds(ew, x, v) for x in d[1])
+    saved = list(ew.w.pred_calls)
+    try:
+        return safe_isinstance(v, ew.ty(d))
+    finally:
+        ew.w.pred_calls[:] = saved
+
+
 def worker_e(payload):
     seed, n, steer = payload
     rng = random.Random(seed)
@@ -146,22 +186,46 @@ def py_spec(fw, ew, sc, regs, pos):
 
     args = [fw.vals[i] for i in pos]
     app = []
+    py_spec.mismatch = []
     for di in regs:
         d = sc["defs"][di]
         ps = [p for p in d["params"] if p["kind"] != "ko"]
         # the supplied positionals must cover the required ones and not exceed the declared ones
         if not (len([p for p in ps if p["req"]]) <= len(args) <= len(ps)):
             continue
-        if all(safe_isinstance(v, fw.glb[f"T_{d['id']}_{p['name']}"]) for v, p in zip(args, ps)):
+        live = [safe_isinstance(v, fw.glb[f"T_{d['id']}_{p['name']}"]) for v, p in zip(args, ps)]
+        try:
+            decl = [bool(desc_holds(ew, p["ty"], v)) for v, p in zip(args, ps)]
+        except Exception:
+            decl = live  # a declared condition that raises on this value (outside its bound): no verdict
+        if decl != live:
+            py_spec.mismatch.append((d["id"], [p["name"] for p, a, b in zip(ps, live, decl) if a != b], live, decl))
+        if all(decl):
             app.append(d)
 
     def ty(d, j):
         return fw.glb[f"T_{d['id']}_{d['params'][j]['name']}"]
 
+    def order(m, m2, j):
+        # two value-dependent declarations whose declared bounds are different plain classes are ordered the way
+        # those bounds are (read off the declarations, not off the type objects built for them)
+        d1, d2 = m["params"][j]["ty"], m2["params"][j]["ty"]
+        if d1[0] in ("lit", "fdep", "prod") and d2[0] in ("lit", "fdep", "prod"):
+            b1, b2 = d1[-1], d2[-1]
+            if b1[0] in ("cls", "pred") and b2[0] in ("cls", "pred") and b1 != b2:
+                saved = list(ew.w.pred_calls)
+                try:
+                    o = typeorder(ew.ty(b1), ew.ty(b2))
+                finally:
+                    ew.w.pred_calls[:] = saved
+                if o in (Order.LESS, Order.MORE):
+                    return o
+        return typeorder(ty(m, j), ty(m2, j))
+
     def beats(m, m2):
         if m["prio"] != m2["prio"]:
             return m["prio"] > m2["prio"]
-        os_ = [typeorder(ty(m, j), ty(m2, j)) for j in range(len(args))]
+        os_ = [order(m, m2, j) for j in range(len(args))]
         if all(o in (Order.LESS, Order.SAME) for o in os_) and any(o is Order.LESS for o in os_):
             return True
         if all(o is Order.SAME for o in os_) and all(ty(m, j) == ty(m2, j) for j in range(len(args))):
@@ -172,7 +236,7 @@ def py_spec(fw, ew, sc, regs, pos):
     winners = [m for m in app if all(m2 is m or beats(m, m2) for m2 in app)]
     # comparable: every two applicable methods are ordered (or the same) in every position (else: finding D1)
     comparable = all(
-        typeorder(ty(m, j), ty(m2, j)) is not Order.NONE and typeorder(ty(m2, j), ty(m, j)) is not Order.NONE
+        order(m, m2, j) is not Order.NONE and order(m2, m, j) is not Order.NONE
         for m in app for m2 in app if m is not m2 for j in range(len(args))
     )
     py_spec.comparable = comparable
@@ -261,7 +325,7 @@ def worker_f(payload):
             if b["o"][0] == "ran":
                 warmed[ck] = True
             # C04: the same call made first on a brand-new function (same registration history, no earlier call)
-            if j % 3 == 0:
+            if j % 2 == 0 or stop_flag[0]:
                 o4 = orc("C04")
                 sc2 = dict(sc)
                 sc2["ops"] = [x for x in sc["ops"][:j] if x[0] != "call"] + [op]
@@ -285,6 +349,10 @@ def worker_f(payload):
                     o1["viol"].append({"law": "method entered with a value its annotation excludes", "method": mid, "params": bad, **wit})
             # C10 / C11: delete the methods whose condition fails, then the documented rule
             want, napp = py_spec(fw, ew, sc, regs, op[1])
+            for mid, names, live, decl in py_spec.mismatch:
+                orc("C10")["viol"].append({"law": "isinstance on the annotation built for a declaration differs from: instance of the declared bound that satisfies the declared condition",
+                                           "method": mid, "params": names, "isinstance": live, "declared": decl,
+                                           "kind": "fn-dep", "world": w.desc, "scenario": sc, "op_index": j})
             first = b["raw"][0][0] if b.get("raw") else None
             got = ["ran", first] if first is not None else ([b["o"][0]] if b["o"][0] in ("ambiguous", "nomethod") else ["other", b["o"][0]])
             alld = [p["ty"] for di in regs for p in sc["defs"][di]["params"]]
